@@ -399,10 +399,28 @@ def run(rep, facts):
         rep.floor("R18.5", "async callers of set_stream", n, 3)
 
 
+def run_discard_geometry(rep, facts):
+    """R18.6: "data of streams other than the active one is never delivered": a stream switch empties the stream buffer through discard_stream;
+    that the parsed region is empty afterwards, and that the pending protocol bytes survive, is the buffer geometry decided by E8
+    (R3.10 instances of discard_stream / stream_buffer / consume_stream, re-evaluated)."""
+    from . import c03
+    rep.rule("R18.6", "after a stream switch nothing of the old stream is left to hand out: discard_stream leaves an empty parsed region and keeps the unparsed protocol bytes; "
+                      "stream_buffer / consume_stream expose exactly the parsed region (R3.10)")
+    sr = check.Report("tmp", "quick")
+    c03.run_geometry(sr, facts)
+    n = 0
+    for i in sr.instances:
+        if i["rule"] == "R3.10" and i["instance"].split("/")[0] in ("discard_stream", "stream_buffer", "consume_stream"):
+            n += 1
+            (rep.ok if i["status"] == "ok" else rep.violation)("R18.6", i["instance"], i["detail"], i["loc"])
+    rep.floor("R18.6", "geometry instances", n, 2)
+
+
 def main(rep, tier):
     f = F.load(("async", "http"))
     rep.configs.append({"features": "async,http", "profile": "debug", "bodies": len(f.bodies)})
     check.guard(rep, "R18", run, f)
+    check.guard(rep, "R18.6", run_discard_geometry, f)
     rep.floor("R18", "rule instances", len([i for i in rep.instances if i["status"] == "ok"]), 14)
     import check as _c
     _c.witnesses(rep, "C18", f)
